@@ -317,6 +317,7 @@ func program(pkg string, d *data.Declaration, pos int, fill map[int]string, deco
 // ---------------------------------------------------------------- inventory (derived)
 
 type hint struct {
+	Slow      bool     `json:"slow"`      // expensive (key derivation): called on every 8th case only
 	Recursive bool     `json:"recursive"` // walks directories recursively: not called on layouts with a directory cycle
 	Values    []string `json:"values"`    // alternative values of a NON-path string parameter
 	Deco      []string `json:"deco"`      // prefixes put before the path when it is in this position
